@@ -394,8 +394,9 @@ Definition is_cooler_obj (x : obj) : bool :=
   | Some v => aval_eqb v (AStr MAGIC)
   | None => false
   end.
-(** fileops.is_cooler after the D5 repair:  not is_hdf5 -> False;  grouppath not in f -> False;
-    _is_cooler(f[grouppath]) *)
+(** fileops.is_cooler after the D5 and D25 repairs:  not is_hdf5 -> False;  grouppath not in f -> False
+    (the membership test itself can raise);  f[grouppath] raising KeyError/RuntimeError -> False;
+    else _is_cooler(f[grouppath]) *)
 Definition is_cooler (w : world) (f : fid) (p : path) : tri :=
   if negb (file_exists w f) then TFalse
   else match contains w f p with
@@ -407,7 +408,7 @@ Definition is_cooler (w : world) (f : fid) (p : path) : tri :=
                            | Some x => if is_cooler_obj x then TTrue else TFalse
                            | None => TFalse
                            end
-           | r => TRaise (res_err r)
+           | _ => TFalse
            end
        end.
 
